@@ -4,6 +4,7 @@
 import SolverzModel.Core.Ctl.Rodas
 import SolverzModel.Proofs.Rodas
 import SolverzModel.Proofs.RodasRun
+import SolverzModel.Proofs.RodasDense
 namespace Solverz
 open RodasEnv
 
@@ -75,6 +76,61 @@ three-attempt script (accept, reject, accept) ends with three emitted times -/
 example : ∃ E : RodasEnv ℚ, RunHyp E ∧ (E.run [(1/2, 2), (3, 1/2), (1/4, 2)] E.init).T.length = 3 := by
   refine ⟨{ O := ratO, spacing := fun _ => 1 / 4503599627370496, uround := 1 / 4503599627370496, tiny := 1 / 1000000, half := 1 / 2,
             c128 := 128, tspan := [0, 1],
+            opt := { fac1 := 1 / 5, fac2 := 6, facmax := 6, hinit := some (1 / 10), hmax := none, fixH := false, eventDuration := 0 },
+            events := [] }, ⟨rfl, rfl, rfl, by decide, rfl, by norm_num, ?_, ?_, ?_⟩, by decide +kernel⟩
+  · decide +kernel
+  · decide +kernel
+  · decide +kernel
+
+/-! ### whole runs with more than two requested nodes (dense output), no event functions, adaptive, exact arithmetic -/
+
+/-- **The returned times are exactly the requested nodes.**  For every script of error estimates and every strictly
+increasing `tspan` with more than two nodes: the times emitted so far are, in order, a *prefix* of `tspan` (never an
+internal step time, never a node twice, never out of order); once the integration has reached `tend` they are **all**
+of `tspan`, the last node included; and a run that ends without a reported failure ends within `uround` below `tend`. -/
+theorem C09_dense_run_times (E : RodasEnv ℚ) (H : DenseHyp E) (script : List (ℚ × ℚ)) :
+    (E.run script E.init).T.reverse = E.tspan.take (E.run script E.init).inext ∧
+    (E.run script E.init).T.reverse <+: E.tspan ∧
+    ((E.run script E.init).t = E.tend ∨ (E.run script E.init).inext = E.tspan.length ↔ (E.run script E.init).T.reverse = E.tspan) ∧
+    (E.run script E.init).dt ≤ E.hmaxV ∧
+    ((E.run script E.init).done = true → (E.run script E.init).failed = false →
+      0 ≤ E.tend - (E.run script E.init).t ∧ E.tend - (E.run script E.init).t < E.uround) := by
+  have I := H.run_inv script E.init H.init_inv
+  have hT : (E.run script E.init).T.reverse = E.tspan.take (E.run script E.init).inext := by rw [I.out, List.reverse_reverse]
+  refine ⟨hT, by rw [hT]; exact List.take_prefix _ _, ?_, I.dt_max, ?_⟩
+  · constructor
+    · intro h
+      have hall : (E.run script E.init).inext = E.tspan.length := by
+        rcases h with h | h
+        · by_contra hne
+          have hlt : (E.run script E.init).inext < E.tspan.length := lt_of_le_of_ne I.idx.2 hne
+          have := (I.next hlt)
+          -- the next node would lie beyond tend
+          have hle : E.tspan.getD (E.run script E.init).inext 0 ≤ E.tend := by
+            rw [H.tend_eq]
+            by_cases heq : (E.run script E.init).inext = E.tspan.length - 1
+            · rw [heq]
+            · exact le_of_lt (sorted_getD _ H.hsorted _ _ (by omega) (by have := H.len_gt; omega))
+          rw [this.1, h] at this
+          linarith [this.2]
+        · exact h
+      rw [hT, hall, List.take_length]
+    · intro h
+      right
+      have hlen := congrArg List.length h
+      rw [hT, List.length_take] at hlen
+      have := I.idx.2
+      omega
+  · intro hd hf
+    rcases I.finished hd with h | h
+    · rw [hf] at h; cases h
+    · exact h
+
+/-- non-vacuity: tspan [0, 1/4, 1/2, 1], a script of four accepted attempts reaches `tend` and returns the four nodes -/
+example : ∃ E : RodasEnv ℚ, DenseHyp E ∧
+    (E.run [(1/2, 6), (1/2, 6), (1/2, 6), (1/2, 6), (1/2, 6)] E.init).T.reverse = [0, 1/4, 1/2, 1] := by
+  refine ⟨{ O := ratO, spacing := fun _ => 1 / 4503599627370496, uround := 1 / 4503599627370496, tiny := 1 / 1000000, half := 1 / 2,
+            c128 := 128, tspan := [0, 1/4, 1/2, 1],
             opt := { fac1 := 1 / 5, fac2 := 6, facmax := 6, hinit := some (1 / 10), hmax := none, fixH := false, eventDuration := 0 },
             events := [] }, ⟨rfl, rfl, rfl, by decide, rfl, by norm_num, ?_, ?_, ?_⟩, by decide +kernel⟩
   · decide +kernel
